@@ -19,14 +19,14 @@ import c06gen as G
 from lib import gz, gtext, glist, gbool, gopt
 
 THEOREMS = ['C06_emitted_valid_partial', 'C06_decimal_literal', 'C06_decimal_literal_valid', 'C06_decimal_wire_refuted',
-            'C06_nil_required_refuted', 'C06_int_verdicts_agree', 'C06_str_verdicts_agree', 'C06_bool_verdicts_agree',
-            'C06_closure_check_sound', 'C06_ex_emitted_valid', 'C06_ex_int_agree', 'C06_ex_str_agree']
+            'C06_nil_required_refuted', 'C06_verdicts_agree', 'C06_verdicts_agree_structure', 'C06_int_verdicts_agree', 'C06_str_verdicts_agree', 'C06_bool_verdicts_agree',
+            'C06_closure_check_sound', 'C06_ex_emitted_valid', 'C06_ex_int_agree', 'C06_ex_str_agree', 'C06_ex_verdicts']
 FUEL = 12
 XSD_NS = 'http://www.w3.org/2001/XMLSchema'
 XSI_NS = 'http://www.w3.org/2001/XMLSchema-instance'
 D = decimal.Decimal
 
-IMPORTS = 'From SpyneV Require Import Base.Prelude Base.Ext C06.Check C06.Closure C06.Main.\n'
+IMPORTS = 'From SpyneV Require Import Base.Prelude Base.Ext C06.Check C06.Closure C06.Docs C06.Main.\n'
 
 
 # ------------------------------------------------------------------ driving the implementation
@@ -442,8 +442,29 @@ class World(object):
         return bool(ok), (err.message if err is not None else None)
 
 
-def gen_desc(rng, tier, ui):
-    return G.gen_universe(rng, n_classes=rng.randint(1, 5), namespaces=('urn:t', 'urn:u') if ui % 2 else ('urn:t',))
+PROVED_BASES = G.INT_BASES + ['string', 'string', 'string', 'anyURI', 'boolean', 'boolean']
+
+
+def gen_desc(rng, tier, ui, proved_only=False):
+    return G.gen_universe(rng, n_classes=rng.randint(1, 5), namespaces=('urn:t', 'urn:u') if ui % 2 else ('urn:t',),
+                          bases=PROVED_BASES if proved_only else None)
+
+
+def in_proved_class(desc, notes):
+    """is a generated document in the class of C06_verdicts_agree with la_canon?  The leaf classes
+    are integers / strings / booleans without total_digits, and the document departs from
+    validity only by constraints both validators implement."""
+    if any(n.startswith('schema-only:') or n.startswith('finding:') or n.startswith('soft-only:') for n in notes):
+        return False
+    for c in desc['classes']:
+        for f in c['fields']:
+            t = f['ty']
+            while t[0] == 'arr':
+                t = t[1]
+            if t[0] == 'leaf':
+                if t[1]['base'] not in G.INT_BASES + ['string', 'anyURI', 'boolean'] or 'total_digits' in t[1]['facets']:
+                    return False
+    return True
 
 
 def corr_universe(check, ui, tier):
@@ -451,7 +472,7 @@ def corr_universe(check, ui, tier):
     from lxml import etree
     import universe as U0
     rng = check.rng
-    desc = gen_desc(rng, tier, ui)
+    desc = gen_desc(rng, tier, ui, proved_only=(ui % 2 == 1))
     W = World(rng, desc, 'xml')
     if W.compile_error:
         check.fail('C06|compile|' + compile_shape(W.compile_error), 'the generated schema does not compile: ' + W.compile_error,
@@ -467,7 +488,7 @@ def corr_universe(check, ui, tier):
         check.mismatch('schema', 'the real schema has a shape outside the modelled syntax: %s' % e)
         return
     texts = list(notes)
-    emit_cases, xsd_cases, soft_cases, conf_cases = [], [], [], []
+    emit_cases, xsd_cases, soft_cases, conf_cases, class_docs, class_cases = [], [], [], [], [], []
     per_class = 3 if tier == 'quick' else 8
     docs = []
     for cid in range(n):
@@ -491,6 +512,8 @@ def corr_universe(check, ui, tier):
             x, dn = G.gen_doc(rng, desc, W.classes, cid, desc['tns'], 'x', depth=rng.randint(1, 3))
             m, body = wrap('xml', desc['tns'], 'm%d' % cid, x)
             docs.append((cid, etree.fromstring(body), 'generated ' + ','.join(sorted(set(dn)))))
+            if in_proved_class(desc, dn):
+                class_docs.append((cid, etree.fromstring(body), ','.join(sorted(set(dn)))))
     for cid, tree, what in docs:
         texts.extend(doc_texts(tree))
         body = etree.tostring(tree)
@@ -501,6 +524,10 @@ def corr_universe(check, ui, tier):
         soft_cases.append(('(%d%%nat, %s, %s)' % (n + 2 * cid, xt, g_verdict(sv)),
                            'universe %d %s: %s -> soft %r' % (ui, what, body.decode()[:500], sv)))
         check.count(('doc', body))
+    for cid, tree, what in class_docs:
+        class_cases.append(('(%d%%nat, %s)' % (n + 2 * cid, U0.g_xml(tree)),
+                            'universe %d document meant to lie in the class of C06_verdicts_agree (%s): %s' % (
+                                ui, what, etree.tostring(tree).decode()[:400])))
     imports = (IMPORTS + 'Definition UU : univ := %s.\nDefinition SS : schema := %s.\n' % (uterm, sterm)
                + tables(R, texts, W.app_s.in_protocol))
     tns = gtext(desc['tns'])
@@ -516,6 +543,9 @@ def corr_universe(check, ui, tier):
     lib.correspond(check, 'hyp_value', imports, 'nat * value * bool',
                    '(fun c => let \'(mc, v, b) := c in Bool.eqb (vconf UU (wire_ok (olex_of OT) (ord_of RT)) %d (DRef mc) (NObj mc [v])) b)' % FUEL,
                    conf_cases)
+    # the generated documents the agreement theorem speaks about do lie in its document class
+    lib.correspond(check, 'hyp_document', imports, 'nat * xnode',
+                   '(fun c => let \'(mc, t) := c in ddoc UU (la_canon (olex_of OT)) %d (DRef mc) false None t)' % FUEL, class_cases)
     lib.correspond(check, 'xsd', imports, 'xnode * bool',
                    '(fun c => Bool.eqb (valid_doc (pat_of PT) (olex_of OT) %d SS (fst c)) (snd c))' % FUEL, xsd_cases)
     lib.correspond(check, 'emit', imports, 'nat * text * value * xnode',
